@@ -51,21 +51,23 @@ Record st := mkSt {
   s_delay : bool;                  (* m_delay_checked is scheduled *)
   s_errno : bool;                  (* m_errno != 0 *)
   s_storerr : bool;                (* receive_storage_error was called *)
-  s_ierr : bool                    (* an internal_error would have been thrown *)
+  s_ierr : bool;                   (* an internal_error would have been thrown *)
+  s_mem : nat                      (* ChunkManager: blocks accounted with the memory manager (allocate / deallocate) *)
 }.
 
-Definition set_open s v := mkSt v (s_files s) (s_bits s) (s_ranges s) (s_pos s) (s_out s) (s_hq s) (s_nodes s) (s_delay s) (s_errno s) (s_storerr s) (s_ierr s).
-Definition set_files s v := mkSt (s_open s) v (s_bits s) (s_ranges s) (s_pos s) (s_out s) (s_hq s) (s_nodes s) (s_delay s) (s_errno s) (s_storerr s) (s_ierr s).
-Definition set_bits s v := mkSt (s_open s) (s_files s) v (s_ranges s) (s_pos s) (s_out s) (s_hq s) (s_nodes s) (s_delay s) (s_errno s) (s_storerr s) (s_ierr s).
-Definition set_ranges s v := mkSt (s_open s) (s_files s) (s_bits s) v (s_pos s) (s_out s) (s_hq s) (s_nodes s) (s_delay s) (s_errno s) (s_storerr s) (s_ierr s).
-Definition set_pos s v := mkSt (s_open s) (s_files s) (s_bits s) (s_ranges s) v (s_out s) (s_hq s) (s_nodes s) (s_delay s) (s_errno s) (s_storerr s) (s_ierr s).
-Definition set_out s v := mkSt (s_open s) (s_files s) (s_bits s) (s_ranges s) (s_pos s) v (s_hq s) (s_nodes s) (s_delay s) (s_errno s) (s_storerr s) (s_ierr s).
-Definition set_hq s v := mkSt (s_open s) (s_files s) (s_bits s) (s_ranges s) (s_pos s) (s_out s) v (s_nodes s) (s_delay s) (s_errno s) (s_storerr s) (s_ierr s).
-Definition set_nodes s v := mkSt (s_open s) (s_files s) (s_bits s) (s_ranges s) (s_pos s) (s_out s) (s_hq s) v (s_delay s) (s_errno s) (s_storerr s) (s_ierr s).
-Definition set_delay s v := mkSt (s_open s) (s_files s) (s_bits s) (s_ranges s) (s_pos s) (s_out s) (s_hq s) (s_nodes s) v (s_errno s) (s_storerr s) (s_ierr s).
-Definition set_errno s v := mkSt (s_open s) (s_files s) (s_bits s) (s_ranges s) (s_pos s) (s_out s) (s_hq s) (s_nodes s) (s_delay s) v (s_storerr s) (s_ierr s).
-Definition set_storerr s v := mkSt (s_open s) (s_files s) (s_bits s) (s_ranges s) (s_pos s) (s_out s) (s_hq s) (s_nodes s) (s_delay s) (s_errno s) v (s_ierr s).
-Definition set_ierr s := mkSt (s_open s) (s_files s) (s_bits s) (s_ranges s) (s_pos s) (s_out s) (s_hq s) (s_nodes s) (s_delay s) (s_errno s) (s_storerr s) true.
+Definition set_open s v := mkSt v (s_files s) (s_bits s) (s_ranges s) (s_pos s) (s_out s) (s_hq s) (s_nodes s) (s_delay s) (s_errno s) (s_storerr s) (s_ierr s) (s_mem s).
+Definition set_files s v := mkSt (s_open s) v (s_bits s) (s_ranges s) (s_pos s) (s_out s) (s_hq s) (s_nodes s) (s_delay s) (s_errno s) (s_storerr s) (s_ierr s) (s_mem s).
+Definition set_bits s v := mkSt (s_open s) (s_files s) v (s_ranges s) (s_pos s) (s_out s) (s_hq s) (s_nodes s) (s_delay s) (s_errno s) (s_storerr s) (s_ierr s) (s_mem s).
+Definition set_ranges s v := mkSt (s_open s) (s_files s) (s_bits s) v (s_pos s) (s_out s) (s_hq s) (s_nodes s) (s_delay s) (s_errno s) (s_storerr s) (s_ierr s) (s_mem s).
+Definition set_pos s v := mkSt (s_open s) (s_files s) (s_bits s) (s_ranges s) v (s_out s) (s_hq s) (s_nodes s) (s_delay s) (s_errno s) (s_storerr s) (s_ierr s) (s_mem s).
+Definition set_out s v := mkSt (s_open s) (s_files s) (s_bits s) (s_ranges s) (s_pos s) v (s_hq s) (s_nodes s) (s_delay s) (s_errno s) (s_storerr s) (s_ierr s) (s_mem s).
+Definition set_hq s v := mkSt (s_open s) (s_files s) (s_bits s) (s_ranges s) (s_pos s) (s_out s) v (s_nodes s) (s_delay s) (s_errno s) (s_storerr s) (s_ierr s) (s_mem s).
+Definition set_nodes s v := mkSt (s_open s) (s_files s) (s_bits s) (s_ranges s) (s_pos s) (s_out s) (s_hq s) v (s_delay s) (s_errno s) (s_storerr s) (s_ierr s) (s_mem s).
+Definition set_delay s v := mkSt (s_open s) (s_files s) (s_bits s) (s_ranges s) (s_pos s) (s_out s) (s_hq s) (s_nodes s) v (s_errno s) (s_storerr s) (s_ierr s) (s_mem s).
+Definition set_errno s v := mkSt (s_open s) (s_files s) (s_bits s) (s_ranges s) (s_pos s) (s_out s) (s_hq s) (s_nodes s) (s_delay s) v (s_storerr s) (s_ierr s) (s_mem s).
+Definition set_storerr s v := mkSt (s_open s) (s_files s) (s_bits s) (s_ranges s) (s_pos s) (s_out s) (s_hq s) (s_nodes s) (s_delay s) (s_errno s) v (s_ierr s) (s_mem s).
+Definition set_mem s v := mkSt (s_open s) (s_files s) (s_bits s) (s_ranges s) (s_pos s) (s_out s) (s_hq s) (s_nodes s) (s_delay s) (s_errno s) (s_storerr s) (s_ierr s) v.
+Definition set_ierr s := mkSt (s_open s) (s_files s) (s_bits s) (s_ranges s) (s_pos s) (s_out s) (s_hq s) (s_nodes s) (s_delay s) (s_errno s) (s_storerr s) true (s_mem s).
 
 (* ---------------------------------------------------------------- lists *)
 Fixpoint upd {A} (l : list A) (i : nat) (v : A) : list A :=
@@ -206,7 +208,9 @@ Definition chunk_get (s : st) (i : nat) (blk : bool) : st * mapres :=
           let (fs', r) := map_windows (piece_windows (s_files s) i) (s_files s) [] in
           match r with
           | MapOk b =>
-              (set_nodes (set_files s fs') (upd (s_nodes s) i (mkN (Some b) (S (n_refs nd)) (if blk then S (n_blk nd) else n_blk nd))), MapOk b)
+              (* ChunkManager::allocate before the mapping; a failed mapping deallocates again (MapErr below) *)
+              (set_mem (set_nodes (set_files s fs') (upd (s_nodes s) i (mkN (Some b) (S (n_refs nd)) (if blk then S (n_blk nd) else n_blk nd))))
+                       (S (s_mem s)), MapOk b)
           | MapErr e => (set_files s fs', MapErr e)
           end
       end
@@ -220,8 +224,10 @@ Definition chunk_release (s : st) (i : nat) (blk : bool) : st :=
       then set_ierr s
       else
         let refs := pred (n_refs nd) in
-        set_nodes s (upd (s_nodes s) i
-          (mkN (if Nat.eqb refs 0 then None else n_chunk nd) refs (if blk then pred (n_blk nd) else n_blk nd)))
+        (* last reference: clear_chunk unmaps and ChunkManager::deallocate *)
+        set_mem (set_nodes s (upd (s_nodes s) i
+          (mkN (if Nat.eqb refs 0 then None else n_chunk nd) refs (if blk then pred (n_blk nd) else n_blk nd))))
+          (if Nat.eqb refs 0 then pred (s_mem s) else s_mem s)
   end.
 
 (* ---------------------------------------------------------------- HashTorrent *)
@@ -437,7 +443,7 @@ End Check.
 
 (* a freshly added download: closed, nothing allocated *)
 Definition init (fs : list fnode) : st :=
-  mkSt false fs None [] O None [] [] false false false false.
+  mkSt false fs None [] O None [] [] false false false false O.
 
 (* what the torrent describes + what is on disk, before the library touched anything *)
 Definition fresh_file (size : N) (pad : bool) (d : fstate) : fnode := mkF size pad d false false.
